@@ -159,9 +159,31 @@ def h_stats_clause(num_rows: int, has_stats: bool, nulls: int, vmin: Optional[in
 
 
 def replay_h_stats_clause(num_rows, has_stats, nulls, vmin, vmax, x, on_a, op_i, v):
-    if not on_a or x is None:
-        return None, "no concrete driver for this shape"
-    return _replay_stats_file([("x", OPS[op_i], v)], x, vmin, vmax)
+    if on_a and x is not None:
+        return _replay_stats_file([("x", OPS[op_i], v)], x, vmin, vmax)
+    # clause on column b (no bounds); column a holds NULLs (possibly only NULLs) and the witness row's a is x
+    import tempfile, os, shutil
+    import numpy as np
+    import pandas as pd
+    import fastparquet
+    n = min(max(num_rows, 1), 50)
+    k = min(nulls, n)
+    a = [np.nan] * k + [float(0 if x is None else x)] * (n - k)
+    b = [v + 1 if OPS[op_i] in (">", ">=", "!=") else (v - 1 if OPS[op_i] in ("<", "<=") else v)] * n
+    df = pd.DataFrame({"a": a, "b": b})
+    d = tempfile.mkdtemp(prefix="c05-")
+    try:
+        fn = os.path.join(d, "t.parq")
+        fastparquet.write(fn, df, stats=True)
+        filters = [("a" if on_a else "b", OPS[op_i], v)]
+        out = fastparquet.ParquetFile(fn).to_pandas(filters=filters)
+        want = int(sum(1 for y in (df["a"] if on_a else df["b"]) if y == y and row_pred(OPS[op_i], y, v)))
+        if want and len(out) == 0:
+            return True, "%d rows satisfy %r but the row group (column a: %d of %d cells NULL) was pruned" % (
+                want, filters, k, n)
+        return False, "rows returned"
+    finally:
+        shutil.rmtree(d, ignore_errors=True)
 
 
 def h_stats_two_clauses(num_rows: int, min_a: int, max_a: int, xa: int, min_b: int, max_b: int, xb: int,
